@@ -265,6 +265,11 @@ pub mod passkey_types {
     }
     // model of passkey.rs `impl From<Passkey> for webauthn::PublicKeyCredentialDescriptor` (the descriptor model has only `id`)
     impl From<Passkey> for webauthn::PublicKeyCredentialDescriptor { fn from(value: Passkey) -> Self { Self { id: value.credential_id } } }
+    impl<'a> vstd::std_specs::convert::FromSpecImpl<&'a Passkey> for webauthn::PublicKeyCredentialDescriptor {
+        open spec fn obeys_from_spec() -> bool { true }
+        open spec fn from_spec(p: &'a Passkey) -> webauthn::PublicKeyCredentialDescriptor { webauthn::PublicKeyCredentialDescriptor { id: p.credential_id } }
+    }
+    impl From<&Passkey> for webauthn::PublicKeyCredentialDescriptor { fn from(value: &Passkey) -> Self { Self { id: value.credential_id.clone() } } }
 }
 pub use passkey_types::Passkey;
 pub use passkey_types::webauthn::PublicKeyCredentialDescriptor;
